@@ -1218,7 +1218,7 @@ func init() {
 			"tail-call markers, error class and message). A failing spec is delta-minimised (padding, chain length, shapes). Distinct = (frame kind, entry variant, statement shape, callee kind).",
 		NumCases: func(tier string) int {
 			if tier == "thorough" {
-				return 40000
+				return 20000
 			}
 			return 1600
 		},
